@@ -25,9 +25,11 @@ SliceOps(n) == CASE n = "C09" -> {"Generate", "Regenerate", "AddNode", "Link", "
               [] n = "C14" -> {"Generate", "AttachAttackers", "Analyse", "DeepCopy", "RemoveNode", "Compromise", "Touch", "AddNode", "RemoveGAttacker"}
               [] n = "C10" -> {"Generate", "AttachAttackers", "Analyse", "Prune", "Compromise", "Undo", "RemoveNode", "Touch", "SaveLoad"}
               [] n = "C10R" -> {"Generate", "AttachAttackers", "Undo", "RemoveNode", "SaveLoad"}    \* removals before saving
+              [] n = "C13L" -> {"Generate", "AttachAttackers", "Undo", "Touch", "SaveLoad", "Prune"}   \* prune loaded graphs / after undo
               [] n = "C10F" -> {"Generate", "AddGAttacker", "Compromise", "SaveLoad"}
               [] n = "ALL" -> {"Generate", "Regenerate", "AddNode", "Link", "RemoveNode", "Prune", "Analyse", "AttachAttackers", "AddGAttacker", "RemoveGAttacker", "Compromise", "Undo", "DeepCopy", "SaveLoad", "Touch"}
               [] OTHER -> {"Generate"}
+TouchKindsDef == IF EnvOr("VERIF_TOUCH", "all") = "label" THEN {"label"} ELSE {"tags", "extras", "ttc", "label"}
 GOpsDef == SliceOps(EnvOr("VERIF_SLICE", "C09"))
 MaxNodesDef == atoi(EnvOr("VERIF_MAXNODES", "5"))
 LevelBound == TLCGet("level") <= atoi(EnvOr("VERIF_DEPTH", "100"))
